@@ -86,7 +86,11 @@ def run_case(case):
     current = {"what": "start"}
     keys = []
 
+    deaf = set()  # nodes whose application has itself taken the radio out of receive mode, until their next write()/send()
+
     def hook(ctl, kind):
+        if ctl.key in deaf:
+            return
         if kind == "update":
             check_listening(ctl, "update()" + current.get("during", ""), problems)
         else:
@@ -147,7 +151,7 @@ def run_case(case):
             elif k == "cfg":
                 # radio-level calls that every network object inherits and that are not meant to change the role: a
                 # power cycle, re-asserting channel / data rate, PA level, a details report, a fragmentation toggle
-                which = op[2] % 7
+                which = op[2] % 9
 
                 def fn(node, which=which):
                     if which == 0:
@@ -164,11 +168,33 @@ def run_case(case):
                         node.fragmentation = True
                     elif which == 5:
                         node.data_rate = node.data_rate
+                    elif which == 7:
+                        node.set_dynamic_payloads(1)  # re-asserting what a network node needs anyway (0/1 for bool)
+                    elif which == 8:
+                        node.set_dynamic_payloads(True, 3)
                     else:
                         node.power = True
+            elif k == "deaf" and not mesh:
+                # the application itself stops listening or powers the radio down (outside the property); the property
+                # speaks again when the node's next write()/send() returns - transmitted or looped back to itself
+                deaf.add(key)
+                how = op[2] % 2
+
+                def fn(node, how=how):
+                    if how:
+                        node.power = False
+                    else:
+                        node.listen = False
             elif k == "idle":
                 net.sim.advance(op[2] * MS)
                 continue
+            if key in deaf and k in ("write", "send") and fn is not None and ctl.kind == "net" and netaddr.is_valid(op[2]) \
+                    and ctl.node.node_address != 0o4444:
+                def fn(node, inner=fn, key=key):
+                    deaf.discard(key)  # inside the node's own task: an update() still running when the call is posted is exempt
+                    return inner(node)
+                res.label("write-after-the-application-stopped-listening" + ("/to-itself" if op[2] == ctl.node.node_address else ""))
+                res.nontrivial = True
             if fn is None:
                 continue
             current["what"] = "%s%r on %s" % (k, tuple(op[2:]), ctl.kind)
@@ -189,7 +215,8 @@ def run_case(case):
                 res.nontrivial = True
         net.settle(2000)
         for key, c in net.ctl.items():
-            check_listening(c, "quiescence", problems)
+            if key not in deaf:
+                check_listening(c, "quiescence", problems)
         net.drain_queues()
 
     try:
@@ -240,7 +267,8 @@ def _strategy():
             st.tuples(st.just("addr"), idx, st.sampled_from([0o1, 0o2, 0o15, 0o314, 0o2345, 0o6, 0o70, 0o4444, 0o100])),
             st.tuples(st.just("mclevel"), idx, st.integers(-1, 5)),
             st.tuples(st.just("idle"), idx, st.sampled_from([1, 10])),
-            st.tuples(st.just("cfg"), idx, st.integers(0, 6)),
+            st.tuples(st.just("cfg"), idx, st.integers(0, 8)),
+            st.tuples(st.just("deaf"), idx, st.integers(0, 1)),
         ).map(list)
         return {"family": "net", "nodes": nodes, "loss": draw(loss), "ops": draw(st.lists(op, min_size=1, max_size=12))}
 
@@ -259,7 +287,7 @@ def _strategy():
             st.tuples(st.just("mesh_check"), idx, st.booleans()), st.tuples(st.just("mc"), idx, st.sampled_from([None, 0, 1, 2]), st.sampled_from([0, 5])),
             st.tuples(st.just("mclevel"), idx, st.integers(0, 4)),
             st.tuples(st.just("mesh_lookup_addr"), st.just(0), anyid), st.tuples(st.just("mesh_send"), st.just(0), anyid, typ, ln),
-            st.tuples(st.just("cfg"), st.integers(0, len(nodes) - 1), st.integers(0, 6)),
+            st.tuples(st.just("cfg"), st.integers(0, len(nodes) - 1), st.integers(0, 8)),
         ).map(list)
         ops = [["mesh_renew", k] for k in range(1, len(nodes)) if draw(st.booleans())] + draw(st.lists(op, min_size=1, max_size=8))
         return {"family": "mesh", "nodes": nodes, "loss": draw(loss), "ops": ops}
@@ -267,7 +295,22 @@ def _strategy():
     return st.one_of(net_case(), net_case(), mesh_case())
 
 
+def _enum_deaf():
+    """the application stops listening (or powers the radio down), then writes: to itself, to its parent, to a child, through
+    its parent, to nobody; plain, acknowledged and fragmented; every transmission delivered or every one lost"""
+    nodes = [{"key": a, "kind": "net", "arg": a, "mcu": None} for a in (0, 0o1, 0o11, 0o2)]
+    for who in (0, 1):
+        own = nodes[who]["arg"]
+        for how in (0, 1):
+            for call in ("write", "send"):
+                for dst in (own, 0, 0o1, 0o11, 0o2, 0o31):
+                    for typ, ln in ((0, 5), (65, 5), (0, 30), (100, 60)):
+                        for loss in ("D", "P"):
+                            yield {"family": "net", "nodes": nodes, "loss": loss,
+                                   "ops": [["deaf", who, how], [call, who, dst, typ, ln], ["idle", 0, 1], [call, who, dst, typ, ln]]}
+
+
 def parts(tier):
     if tier == "quick":
-        return [Part("generated", "gen", _strategy, n=240)]
-    return [Part("generated", "gen", _strategy, n=6000)]
+        return [Part("deaf-then-write", "enum", _enum_deaf, exhaustive=True), Part("generated", "gen", _strategy, n=240)]
+    return [Part("deaf-then-write", "enum", _enum_deaf, exhaustive=True), Part("generated", "gen", _strategy, n=6000)]
